@@ -134,6 +134,20 @@ def run(ctx):
                fn=ss.path, construct="spec-sample", callee=sym,
                sample={"rule": "sqlstate-total", "code": code, "sqlstate": st.decode(), "kind": sym})
 
+    # ---- reference through time: the table confirmed on the pinned tree --------------------------
+    import json, os
+    ref = json.load(open(os.path.join(os.path.dirname(os.path.dirname(os.path.abspath(__file__))), "spec", "error_table.json")))["table"]
+    ctx.rule("C13.sqlstate-reference", "every (code, kind, SQLSTATE) equals the reference table confirmed on the pinned tree (values, not text)")
+    nref = 0
+    for code_s, (kname, st) in ref.items():
+        code = int(code_s)
+        nref += 1
+        got_st = table.get(code)
+        ok = discr.get(code) == kname and got_st is not None and got_st.decode("latin1") == st
+        ctx.ob("C13.sqlstate-reference", ok, "code %d: reference is %s/%s, tree has %s/%s" % (code, kname, st, discr.get(code), got_st.decode("latin1") if got_st else None),
+               fn=ss.path, construct="reference-entry", callee=kname, key_extra={"code": code}, nontrivial=False)
+    ctx.floor("C13.sqlstate-reference", "reference entries", nref, FLOOR_VARIANTS)
+
     # ---- ERR layout ----------------------------------------------------------------------------
     we = prog.one(r"^writers::write_err$")
     ctx.fn(we)
